@@ -77,12 +77,13 @@ Print Assumptions prange_loops_reviewed.
 
 (** Obligation over the randomness call sites re-extracted on this run: no estimator builds its generator in
     __init__ (fix f557bdfd), the ARPACK wrappers pass a start vector (fix 66b80972), libc rand() occurs nowhere
-    (fix 0f5490bf: Leiden's refinement kernel draws from a local generator), and the global NumPy generator is used exactly
+    (fix 0f5490bf: Leiden's refinement kernel draws from a local generator), no function declares a `global` and no kernel module
+    keeps an initialised module-level C variable (state that would survive a call: seed C16_9), and the global NumPy generator is used exactly
     at the reviewed sites (none of which belongs to an estimator with a random_state parameter, except GNNClassifier which
     seeds it). *)
 Theorem randomness_sites_reviewed :
   rng_built_in_init = [] /\ eigsh_has_v0 = true /\ svds_has_v0 = true /\
-  libc_rand_files = [] /\
+  libc_rand_files = [] /\ module_state_sites = [] /\
   global_rng_sites =
     ["sknetwork/classification/propagation.py:Propagation.fit:np.random.shuffle";
      "sknetwork/clustering/kcenters.py:KCenters._init_centers:np.random.choice";
